@@ -402,6 +402,37 @@ def l8_pipeline(i1: List[int], i2: List[int], i3: List[int]) -> bool:
     return True
 
 
+CODE_LETTERS = ['D', 'A', 'a', 'L', 'h', 'H', 'X', 'n', 'N', 'C', 'b', 'B', 'M', '.', '?', '*']
+VAR_PARTS = ['1', '77', 'x']
+
+
+def l8_code_letters(ci: int, v1: int, v2: int, v3: int, shape: int) -> bool:
+    """
+    pre: 0 <= ci < len(CODE_LETTERS) and 0 <= shape < 3
+    pre: 0 <= v1 < len(VAR_PARTS) and 0 <= v2 < len(VAR_PARTS) and v3 == 0
+    post: __return__
+    """
+    # examples holding, as a CONSTANT field, a character that rexpy uses internally as a category code,
+    # next to a field that varies (rexpy represents literals and category codes in the same tuples)
+    def pick(i, menu):
+        for k in range(len(menu)):
+            if i == k:
+                return menu[k]
+        return menu[-1]
+    c = pick(ci, CODE_LETTERS)
+    parts = [pick(v, VAR_PARTS) for v in (v1, v2)] + ['2']
+    shape = pick(shape, [0, 1, 2])
+    if shape == 0:
+        ex = [c + '-' + p_ for p_ in parts]
+    elif shape == 1:
+        ex = [p_ + '/' + c for p_ in parts]
+    else:
+        ex = [c + c + ' ' + p_ for p_ in parts]
+    kw = dict(P.get('kw') or {})
+    r = rx.extract(list(ex), dialect=DIALECT, **kw)
+    return all(any(re.match(p_, e, RE_FLAGS) for p_ in r) for e in ex)
+
+
 # ---- lifting per-character lemmas to the public API ---------------------------------------
 def _all_matched(examples, **kw):
     r = rx.extract(list(examples), dialect=DIALECT, extra_letters=EXTRA, **kw)
@@ -530,6 +561,14 @@ def _obs():
                   'every triple of strings of lengths <=2, <=1, <=1 over the alphabet %r; portable; variableLengthFrags'
                   % E2E_ALPHABET, param={'dialect': 'portable', 'kw': {'variableLengthFrags': True}, 'len': 2,
                                          'len2': 1, 'three': True}, timeout=7000, tier='thorough'))
+    for d, kw, tier in (('portable', {}, 'quick'), ('perl', {'tag': True}, 'thorough'),
+                        ('grep', {'variableLengthFrags': True}, 'thorough')):
+        obs.append(Ob('L8', 'l8_code_letters', 'end to end: examples whose constant field is a character rexpy also '
+                      'uses internally as a category code (D, A, a, L, ..., ., ?, *) next to a varying field are all '
+                      'matched by the returned expressions',
+                      '%d code characters x 2 varying parts from a menu of %d (+ a third, fixed) x 3 shapes (symbolic indexes); dialect '
+                      '%s; options %r' % (len(CODE_LETTERS), len(VAR_PARTS), d, kw),
+                      param={'dialect': d, 'kw': kw}, timeout=900, tier=tier))
     return obs
 
 
